@@ -1,11 +1,12 @@
 (* C17 - Lines connect their end points and stay on the ideal line.
    Statements only; every proof is `exact <lemma>` from Proofs/Line.v (thin lines, Line::points())
-   and Proofs/Thickline.v (stroked lines, Styled<Line>::pixels()).
+   and Proofs/Thickline.v, Proofs/ThicklineCheck.v, Proofs/ThicklineGrid.v (stroked lines, Styled<Line>::pixels()).
    line_ok l: all four coordinates within +-2^28, the range in which no value of the i32 error
    accumulator overflows (C17_line_no_overflow); the other thin-line theorems hold for the unbounded
    model without it and carry it only to say where model and machine arithmetic coincide.
    ldx/ldy = end - start per axis, sgn x = 1 if 0 <= x else -1, y_major l = |dx| <= |dy|. *)
-From EG Require Import Base.Prelude Model.Geometry Model.Style Model.Line Proofs.Line.
+From EG Require Import Base.Prelude Model.Geometry Model.Style Model.Line Model.Thickline
+                       Proofs.Line Proofs.Thickline Proofs.ThicklineCheck Proofs.ThicklineGrid.
 
 Theorem C17_line_first : forall l, line_ok l -> hd_error (line_points l) = Some (l_start l).
 Proof. intros l _. apply line_first. Qed.
@@ -75,7 +76,73 @@ Theorem C17_line_no_overflow : forall l st, line_ok l ->
   i32 (b_error st) /\ i32 (err_after_test p st).
 Proof. exact line_no_overflow. Qed.
 
+(* ======================================================================================== *)
+(* Stroked lines: Styled<Line>::pixels() = StyledPixelsIterator over ThickPoints (Model/Thickline.v).
+   thick_points l w : option (list point) is the ThickPoints iterator for `ThickPoints::new(l, w)` as the list
+   it yields (None = the model's fuel ran out: C17_thick_terminates shows it never does);
+   styled_line_pixels l st pairs it with the effective stroke colour; colored c ps = map (fun p => (p, c)) ps. *)
+
+(* width 1 = Line::points(), in the same order *)
+Theorem C17_thick_w1_is_points : forall l st c,
+  stroke_color st = Some c -> stroke_width st = 1 ->
+  styled_line_pixels l st = Some (colored c (line_points l)).
+Proof. exact styled_w1_is_points. Qed.
+
+(* width 0 or no stroke colour: nothing is drawn *)
+Theorem C17_thick_w0_draws_nothing : forall l st,
+  stroke_color st = None \/ stroke_width st = 0 -> styled_line_pixels l st = Some [].
+Proof. exact styled_no_stroke. Qed.
+
+Theorem C17_thick_points_w0_empty : forall l, thick_points l 0 = Some [].
+Proof. exact thick_w0_empty. Qed.
+
+(* a stroked line of any width >= 1 contains the thin line: its first major_length pixels ARE Line::points() *)
+Theorem C17_thick_starts_with_thin : forall l st c,
+  stroke_color st = Some c -> 1 <= stroke_width st ->
+  exists rest, styled_line_pixels l st = Some (colored c (line_points l) ++ rest).
+Proof. exact styled_starts_with_thin. Qed.
+
+Theorem C17_thick_contains_thin : forall l w ps p,
+  1 <= w -> thick_points l w = Some ps -> In p (line_points l) -> In p ps.
+Proof. exact thick_contains_thin. Qed.
+
+(* termination: ParallelsIterator yields at most 3w+2 parallels for every line, every width and every stroke
+   offset (so the model's fuel 4w+8 never runs out), hence at most (3w+2) * (max(|dx|,|dy|)+1) pixels *)
+Theorem C17_thick_parallels_bound : forall l w so, 0 <= w ->
+  exists ps, parallels l w so = Some ps /\ Z.of_nat (length ps) <= 3 * w + 2.
+Proof. exact parallels_total. Qed.
+
+Theorem C17_thick_terminates : forall l st, 0 <= stroke_width st ->
+  exists pcs, styled_line_pixels l st = Some pcs /\
+              Z.of_nat (length pcs) <= (3 * Z.min (stroke_width st) i32_max + 2) * major_length l.
+Proof. exact styled_total. Qed.
+
+(* the stroke moves with the line *)
+Theorem C17_thick_points_translate : forall l d w,
+  thick_points (translate_line l d) w = option_map (shift d) (thick_points l w).
+Proof. exact thick_points_translate. Qed.
+
+(* The remaining clauses -- no pixel twice, within w/2 + 2.5 pixels of the ideal line, at most one pixel beyond
+   the two ends, at least w - 1 pixels wide at the middle -- for every line of the property's quantifier
+   domain: |dx|, |dy| <= 14 (all pairs of end points of the grid [-7,7]^2, and all their translates anywhere
+   in the plane) and stroke widths 0..9.  thick_ok (Proofs/ThicklineCheck.v):
+     exists ps, thick_points l w = Some ps /\ NoDup ps /\
+       (forall p, In p ps -> 4 cross^2 <= (w+5)^2 len^2                       (dist_ok)
+                          /\ -len <= dot/len <= len + 1)                       (ends_ok)
+       /\ (2 <= w -> two pixels projecting within 1 px of the midpoint lie (w-2) pixel distances apart across the line)
+   `_partial`: proved by computation on this finite domain, not for arbitrarily long lines / wide strokes
+   (OPEN, see Proofs/ThicklineCheck.v); beyond it the clauses are searched on the implementation (p_thick). *)
+Theorem C17_thick_grid_partial : forall l w,
+  -14 <= ldx l <= 14 -> -14 <= ldy l <= 14 -> 0 <= w <= 9 -> thick_ok l w.
+Proof. exact thick_ok_grid. Qed.
+
 Example C17_nonvacuous :
   line_ok (L (P 1 2) (P 5 4)) /\
   line_points (L (P 1 2) (P 5 4)) = [P 1 2; P 2 2; P 3 3; P 4 3; P 5 4].
 Proof. split; [unfold line_ok, lpoint_ok, lbound; cbn; lia | vm_compute; reflexivity]. Qed.
+
+Example C17_thick_nonvacuous :
+  thick_points (L (P 0 0) (P 5 2)) 3 =
+  Some [P 0 0; P 1 0; P 2 1; P 3 1; P 4 2; P 5 2; P 0 (-1); P 1 (-1); P 2 0; P 3 0; P 4 1; P 5 1;
+        P 0 1; P 1 1; P 2 2; P 3 2; P 4 3; P 5 3].
+Proof. vm_compute. reflexivity. Qed.
